@@ -295,6 +295,7 @@ def _join_semantic(prog: Program, res: Result) -> bool:
             return None
 
     eng = Engine(prog, fi, H(), loop_bound=2, zero_trip=True)
+    eng.indexed_enumerate = True
     st0 = State()
     for p_ in fi.params():
         st0.env[p_] = Rat.atom(p_)
@@ -646,7 +647,7 @@ def _interp_table(prog: Program, res: Result):
         res.violation("R11.5", f"table-build|{detail[:80]}", prog.loc(fi, build), q,
                       f"the per-time height interpolants are not built from (h, g_lts[h][i]) for every stored height h: {why} ({detail}) - interpolating at a stored height no longer returns the stored curve")
     # ---- evaluation loop: for i in range(len(self.log_time)): f = table['g'][i]; g_function.append(f(h_eq))
-    rets = [r for r in ast.walk(fn) if isinstance(r, ast.Return) and isinstance(r.value, ast.Tuple) and len(r.value.elts) == 4]
+    rets = sorted([r for r in ast.walk(fn) if isinstance(r, ast.Return) and isinstance(r.value, ast.Tuple) and len(r.value.elts) == 4], key=lambda r: r.lineno)
     ok2 = False
     if rets:
         gname = ast.unparse(rets[-1].value.elts[0])
@@ -659,6 +660,41 @@ def _interp_table(prog: Program, res: Result):
                     v = ast.unparse(inline_single_defs(lp, ap[0].args[0])).replace('"', "'")
                     HE = ast.unparse(rets[-1].value.elts[3])  # the equivalent height that is handed back (defined as B / (B/H): R11.4)
                     ok2 = v in (f"self.interpolation_table['g'][{J}]({HE}).tolist()", f"self.interpolation_table['g'][{J}]({HE})")
+        # the same as a comprehension / over enumerate(self.log_time), the table possibly through a local bound once to it
+        if not ok2:
+            from .search_common import expand_locals
+
+            def index_var(target, it):
+                if isinstance(target, ast.Name) and isinstance(it, ast.Call) and attr_chain(it.func) == "range" and len(it.args) == 1 and ast.unparse(it.args[0]) == "len(self.log_time)":
+                    return target.id
+                if isinstance(target, ast.Tuple) and len(target.elts) == 2 and all(isinstance(e_, ast.Name) for e_ in target.elts) and isinstance(it, ast.Call) and attr_chain(it.func) == "enumerate" \
+                        and len(it.args) == 1 and not it.keywords and ast.unparse(it.args[0]) == "self.log_time":
+                    return target.elts[0].id
+                return None
+
+            HE = ast.unparse(rets[-1].value.elts[3])
+            cands = []
+            gdef = [s_ for s_ in ast.walk(fn) if isinstance(s_, ast.Assign) and len(s_.targets) == 1 and ast.unparse(s_.targets[0]) == gname]
+            for s_ in gdef:
+                if isinstance(s_.value, ast.ListComp) and len(s_.value.generators) == 1 and not s_.value.generators[0].ifs:
+                    J = index_var(s_.value.generators[0].target, s_.value.generators[0].iter)
+                    if J is not None:
+                        cands.append((J, s_.value.elt, s_.lineno))
+            for lp in fn.body:
+                if isinstance(lp, ast.For) and index_var(lp.target, lp.iter) is not None:
+                    ap = appends_in(lp).get(gname, [])
+                    if len(ap) == 1:
+                        cands.append((index_var(lp.target, lp.iter), inline_single_defs(lp, ap[0].args[0]), lp.lineno))
+            aliases = {s_.targets[0].id for s_ in ast.walk(fn) if isinstance(s_, ast.Assign) and len(s_.targets) == 1 and isinstance(s_.targets[0], ast.Name)
+                       and ast.unparse(s_.value).replace('"', "'") == "self.interpolation_table['g']"
+                       and sum(1 for y in ast.walk(fn) if isinstance(y, ast.Name) and y.id == s_.targets[0].id and isinstance(y.ctx, ast.Store)) == 1}
+            for J, elt, line in cands:
+                v = ast.unparse(elt).replace('"', "'")
+                for a_ in aliases:
+                    if v.startswith(f"{a_}["):
+                        v = "self.interpolation_table['g']" + v[len(a_):]
+                if v in (f"self.interpolation_table['g'][{J}]({HE}).tolist()", f"self.interpolation_table['g'][{J}]({HE})"):
+                    ok2 = True
         ok2 = ok2 and isinstance(rets[-1].value.elts[3], ast.Name)
     res.ob("R11.5", "the curve at the equivalent height is [table[i](h_eq) for every time index i, in order]", ok2, prog.loc(fi, rets[-1]) if rets else prog.loc(fi, fn))
     if not ok2:
